@@ -1,0 +1,19 @@
+//go:build verif
+
+/*
+ Verification hook (build tag "verif"): lets a test harness hand the client an existing
+ net.Conn instead of dialling TCP, so that the byte stream a Client reads and writes can be
+ scripted.  Not compiled into normal builds.
+*/
+
+package tacquito
+
+import "net"
+
+// SetClientConn makes the client use conn with the given secret.
+func SetClientConn(conn net.Conn, secret []byte) ClientOption {
+	return func(c *Client) error {
+		c.crypter = newCrypter(secret, conn, false)
+		return nil
+	}
+}
